@@ -441,6 +441,44 @@ example : (match matchGeometry exSrc exTgt (1 / 100000) (.constant (-7)) with
         && r.geom.shape 0 == 3 && r.geom.shape 1 == 4 && r.geom.shape 2 == 2
     | .error _ => false) = true := by decide +kernel
 
+/-- EDGE: the two voxels outside the source now carry the nearest source voxels (0,1,3) and (0,1,0) -/
+example : (match matchGeometry exSrc exTgt (1 / 100000) .edge with
+    | .ok r => r.vox (mk3 0 1 0) == 13 && r.vox (mk3 0 0 0) == 13 && r.vox (mk3 2 1 0) == 10
+    | .error _ => false) = true := by decide +kernel
+
+/-- a statistic that obeys the law (number of voxels: depends on the volume, not on the order of its
+axes), and the model run with it: padding = 24, the statistic of the *source* -/
+example : StatLaw (.stat (fun v : Vol Int => v.geom.shape 0 * v.geom.shape 1 * v.geom.shape 2)) := by
+  intro v w p h
+  obtain ⟨_, hg, hp⟩ := permute_iso v w p h
+  simp only [hg]
+  rcases isPerm_cases p hp with ⟨h0, h1, h2⟩ | ⟨h0, h1, h2⟩ | ⟨h0, h1, h2⟩ | ⟨h0, h1, h2⟩ | ⟨h0, h1, h2⟩ | ⟨h0, h1, h2⟩ <;>
+    simp only [h0, h1, h2] <;> ring
+example : (match matchGeometry exSrc exTgt (1 / 100000)
+      (.stat (fun v : Vol Int => v.geom.shape 0 * v.geom.shape 1 * v.geom.shape 2)) with
+    | .ok r => r.vox (mk3 0 1 0) == 13 && r.vox (mk3 0 0 0) == 24 && r.vox (mk3 2 1 0) == 24
+    | .error _ => false) = true := by decide +kernel
+
+/-- two channels (`Bool`-indexed) with unrelated contents: both move together, the constant goes
+into both -/
+example : (match matchGeometry (α := Bool → Int)
+      { geom := exSrc.geom, vox := fun k ch => if ch then 7 * exSrc.vox k + 1 else exSrc.vox k } exTgt (1 / 100000)
+      (.constant fun _ => -7) with
+    | .ok r => r.vox (mk3 0 1 0) false == 13 && r.vox (mk3 0 1 0) true == 92 && r.vox (mk3 0 0 0) false == -7
+        && r.vox (mk3 0 0 0) true == -7
+    | .error _ => false) = true := by decide +kernel
+
+/-- `tol > 1`: even the source's own geometry is refused, with a ValueError; with `tol = 1` it is matched -/
+example : (match matchGeometry exSrc exSrc.geom (3 / 2) (.constant 0) with
+    | .ok _ => false
+    | .error e => e == .value) = true := by decide +kernel
+example : (match matchGeometry exSrc exSrc.geom 1 (.constant 0) with
+    | .ok r => r.vox (mk3 1 2 3) == 123
+    | .error _ => false) = true := by decide +kernel
+
+/-- channels are ignored by the comparison: 2 against 5 channels, same geometry -/
+example : geometryEqualC exTgt exTgt 2 5 (some (1 / 100000)) = .ok true := by decide +kernel
+
 /-- the same target shifted by a quarter of a source voxel, scaled by 3/2, or in another frame of
 reference is refused -/
 example : (match matchGeometry exSrc { exTgt with pos := ⟨9 + 1 / 4, 20 + 1 / 2, 36⟩ } (1 / 100000) (.constant (-7)) with
